@@ -40,6 +40,8 @@ void restore_command_giver (void);
 
 object_t *load_object(const char *mudlib_filename, const char *pre_text);
 void reset_load_object_limits();
+void save_object_limits(int *load_depth, object_t **restricted);
+void restore_object_limits(int load_depth, object_t *restricted);
 object_t *clone_object(const char *, int);
 object_t *environment(svalue_t *);
 object_t *first_inventory(svalue_t *);
